@@ -797,8 +797,24 @@ func c03R5(p *core.Program, r *core.Report) {
 }
 
 // derivesFromExtract: v is (a conversion/phi of) result #idx of call.
+// pkgHelperFollow lets a backward slice continue through calls of functions of the given package (into their arguments):
+// a helper that takes a value and hands back an extended or converted copy is transparent for provenance.
+func pkgHelperFollow(pkgPath string) func(c *ssa.Call) bool {
+	return func(c *ssa.Call) bool {
+		if b, ok := c.Call.Value.(*ssa.Builtin); ok && b.Name() == "append" {
+			return true
+		}
+		f := c.Call.StaticCallee()
+		return f != nil && core.FuncPkgPath(f) == pkgPath && len(f.Blocks) > 0
+	}
+}
+
 func derivesFromExtract(v ssa.Value, call *ssa.Call, idx int) bool {
-	for x := range core.BackSlice(v, nil) {
+	var follow func(c *ssa.Call) bool
+	if call.Parent() != nil {
+		follow = pkgHelperFollow(core.FuncPkgPath(call.Parent()))
+	}
+	for x := range core.BackSlice(v, follow) {
 		if e, ok := x.(*ssa.Extract); ok && e.Tuple == ssa.Value(call) {
 			if e.Index == idx {
 				// make sure the other index is not ALSO in the slice through an append in the caller; the slice is
